@@ -847,6 +847,15 @@ def token_strings(G, rng, tier):
         k -= 1
     strs = gen.all_strings(terms, k) if terms else [[]]
     seen = {tuple(s) for s in strs}
+    # a long sentence or two (hundreds of tokens: deep stacks, long inputs) and one mutation of it
+    for target in ([300] if tier == "quick" else [300, 800]):
+        if rng.random() < (0.35 if tier == "quick" else 0.6):
+            ls = gen.long_sentence(G, rng, prod, target=target)
+            if ls is not None and len(ls) >= 40:
+                for cand in (ls, gen.mutate(ls, terms, rng)):
+                    if tuple(cand) not in seen:
+                        seen.add(tuple(cand))
+                        strs.append(cand)
     for _ in range(12 if tier == "quick" else 40):
         s = gen.random_sentence(G, rng, prod)
         if s is not None and len(s) <= 40:
@@ -1005,7 +1014,15 @@ def run_C01(rep, tier, rng):
             if kind == "panic":
                 rep.violation("emitted parse panicked", {"label": r["label"], "source": r["text"], "tokens": s})
                 continue
-            want = oracle.recognize(G, s)
+            if len(s) <= 200:
+                want = oracle.recognize(G, s)
+            else:
+                # a long input: the reference is the model driver on the model's tables (proved to decide the language;
+                # the Earley recogniser is cubic)
+                mr0 = _model_res(r, si)
+                if mr0 is None:
+                    continue
+                want = isinstance(mr0[0], str) and mr0[0].startswith("ok")
             acc += want
             if (kind == "ok") != want:
                 rep.violation("emitted parser accepts a non-sentence" if kind == "ok" else "emitted parser rejects a sentence of the declared grammar",
@@ -1035,13 +1052,20 @@ def run_C02(rep, tier, rng):
             kind, detail, pulls = _impl_res(r, si)
             if kind == "skip":      # the compiler did not finish on this module: nothing was observed
                 continue
-            if kind in ("panic", "missing") and oracle.recognize(G, s):
+            if kind in ("panic", "missing") and len(s) <= 200 and oracle.recognize(G, s):
                 rep.violation("no derivation tree is returned for a sentence: the emitted parse " + ("panicked" if kind == "panic" else "did not return"),
                               {"label": r["label"], "source": r["text"], "tokens": s})
                 continue
             if kind != "ok":
                 continue
             ev += 1
+            if len(s) > 200:
+                # a long input: the reference value is the model driver's (Debug rendering of the tree it returns)
+                mr0 = _model_res(r, si)
+                if mr0 is not None and isinstance(mr0[0], str) and mr0[0].startswith("ok ") and detail != mr0[0][3:]:
+                    rep.violation("the value returned on acceptance of a long input is not the derivation tree of the input with the original payloads",
+                                  {"label": r["label"], "source": r["text"], "tokens": s, "impl": detail[:2000], "reference": mr0[0][3:][:2000]})
+                continue
             tree = oracle.parse_tree(G, s)
             if tree is None:
                 continue   # not a sentence / ambiguous: C01 / C04 territory
